@@ -50,15 +50,15 @@ def ser_op(s, t):
     elif c == 'ab':
         s.add_aligned_bytes(arr(t[1]))
     elif c == 'au':
-        s.add_aligned_unsigned(int(t[1]), int(t[2]))
+        s.add_aligned_unsigned(int(t[1], 0), int(t[2]))
     elif c == 'uu':
-        s.add_unaligned_unsigned(int(t[1]), int(t[2]))
+        s.add_unaligned_unsigned(int(t[1], 0), int(t[2]))
     elif c == 'as':
         s.add_aligned_signed(int(t[1]), int(t[2]))
     elif c == 'us':
         s.add_unaligned_signed(int(t[1]), int(t[2]))
     elif c in ('u8', 'u16', 'u32', 'u64', 'i8', 'i16', 'i32', 'i64'):
-        getattr(s, 'add_aligned_' + c)(int(t[1]))
+        getattr(s, 'add_aligned_' + c)(int(t[1], 0))
     elif c == 'abits':
         s.add_aligned_array_of_bits(bits(t[1]))
     elif c == 'ubits':
